@@ -142,7 +142,9 @@ def analyse(spec):
   est, lo = float(sm['estimate'].iloc[0]), float(sm['lower'].iloc[0])
   if not close(float(fit.estimate), est, 1e-8, 1e-6):
     out['fails'].append('design-side estimate %r differs from the analysis %r' % (float(fit.estimate), est))
-  if not close(float(fit.cihw), est - lo, 1e-8, 1e-6):
+  # (a half-width is a difference of two quantities of the size of the estimate: with an exact pre-period fit it is zero up to
+  # rounding, so the tolerance is relative to the estimate and the bound, not to the half-width itself)
+  if abs(float(fit.cihw) - (est - lo)) > 1e-8 * max(1.0, abs(est), abs(lo)) and not close(float(fit.cihw), est - lo, 1e-8, 1e-6):
     out['fails'].append('design-side half-width %r differs from the analysis %r' % (float(fit.cihw), est - lo))
   out['design'] = (xt, yt, float(fit.estimate), float(fit.scale))
   if all(v == v and abs(v) != float('inf') for v in (float(fit.estimate), float(fit.scale))):
